@@ -135,7 +135,8 @@ class Run:
                 continue
             seen.append(f)
             txt = (COQ / f).read_text()
-            for m in re.finditer(r"From\s+Shoot\s+Require\s+(?:Import|Export)?\s*((?:[A-Za-z_][\w.]*\s*)+)\.", txt):
+            txt = strip_comments(txt)
+            for m in re.finditer(r"From\s+Shoot\s+Require\s+(?:Import\s+|Export\s+)?(.*?)\.(?=\s|$)", txt, re.S):
                 for mod in m.group(1).split():
                     p = mod.replace(".", "/") + ".v"
                     if (COQ / p).exists():
